@@ -8,7 +8,10 @@ Open Scope Z_scope.
 
 Definition case := (env * desc * pv * obs)%type.
 
-Definition alts_of (d : desc) : list desc := match d with DCompound ds => ds | _ => [] end.
+(* an alternative validated alone is a trait of its own: adapt='default' then yields that trait's default (None) *)
+Definition alone (a : desc) : desc :=
+  match a with DAdapt c m an _ => DAdapt c m an PNone | _ => a end.
+Definition alts_of (d : desc) : list desc := match d with DCompound ds => map alone ds | _ => [] end.
 
 (* codes: 1 compiled path, 2 Python path, 3 an alternative validated alone *)
 Definition corr_codes (c : case) : list Z :=
